@@ -301,27 +301,6 @@ theorem row_not_header (r : Row) (hf : RowFacts r) : isHeaderRow (splitLine (ren
 
 /-! ### the column-header row -/
 
-theorem startsWith_decomp (s p : Str) (h : startsWith s p = true) : s = p ++ s.drop p.length := by
-  induction p generalizing s with
-  | nil => simp
-  | cons c cs ih =>
-    cases s with
-    | nil => simp [startsWith] at h
-    | cons d ds =>
-      simp only [startsWith, Bool.and_eq_true, beq_iff_eq] at h
-      obtain ⟨rfl, h2⟩ := h
-      simp only [List.length_cons, List.drop_succ_cons, List.cons_append, List.cons.injEq, true_and]
-      exact ih ds h2
-
-theorem endsWith_decomp (s q : Str) (h : endsWith s q = true) : s = s.take (s.length - q.length) ++ q := by
-  unfold endsWith at h
-  have := startsWith_decomp s.reverse q.reverse h
-  have h2 := congrArg List.reverse this
-  simp only [List.reverse_reverse, List.reverse_append, List.length_reverse] at h2
-  rw [List.drop_reverse] at h2
-  simp only [List.reverse_reverse, List.length_reverse] at h2
-  exact h2
-
 theorem headerText_decomp (l : Str) (h : isHeaderText l = true) :
     ∃ mid, strip l = "FILE".toList ++ mid ++ [' '] ++ "LOCATION".toList ∧ ∀ c ∈ mid, c = ' ' := by
   simp only [isHeaderText, Bool.and_eq_true, decide_eq_true_eq, List.all_eq_true, beq_iff_eq] at h
